@@ -337,7 +337,7 @@ def replay_race(strat, b0, b1, b2, b3, pv, mi, ti, v, p1, n, p2, nd):
 _RS = [('s%d_%s_m%d_d%d' % (i, n or 'none', m, d), 'strat == %d and mi == %d and nd == %d' % (i, m, d)) for i, n in enumerate(L.STRATEGY_NAMES) for m in range(3) for d in (1, 2)]
 _RQ = [('s%d_%s_m%d' % (i, L.STRATEGY_NAMES[i] or 'none', m), 'strat == %d and mi == %d and nd == 1' % (i, m)) for i in (2, 4, 6) for m in (0, 2)]
 HARNESSES.append(
-  H('C17_race', quick=dict(timeout=280, shards=_RQ, extra_pre=['p2 == 0', 'b1 == False and b3 == False', 'ti != 1']),
+  H('C17_race', quick=dict(timeout=420, shards=_RQ, extra_pre=['p2 == 0', 'b1 == False and b3 == False', 'ti != 1']),
     thorough=dict(timeout=900, shards=_RS, extra_pre=['b1 == False and b3 == False', 'p2 in (0, 3)', 'ti != 1']),
     covers=['interleaved'], replay='replay_race', twin_pre=['strat == 2 and mi == 0'],
     encodes=['carbon.cache:_MetricCache.store / drain_metric / pop', 'carbon.cache:*Strategy.choose_item / store (statement-level coroutines)'],
